@@ -198,16 +198,18 @@ def r04_2(ctx):
 
 
 def dispatch_classes(ctx):
-    """Frame classes of parse_frame's dispatch list (resolved by TE-like reading of the for-loop literal)."""
-    pf = ctx.repo.func(f"{ASH}:parse_frame")
-    for n in ast.walk(pf.node):
-        if isinstance(n, ast.For) and isinstance(n.iter, (ast.List, ast.Tuple)):
-            names = [e.id for e in n.iter.elts if isinstance(e, ast.Name)]
-            if names and len(names) == len(n.iter.elts):
-                for nm in names:
-                    ctx.repo.cls(ASH, nm)
-                return names
-    raise AnalysisError("anchor vanished: parse_frame's dispatch list")
+    """The frame classes of the ASH module: the concrete subclasses of AshFrame (each with its MASK / MASK_VALUE), in
+    definition order - however parse_frame selects among them (list literal, module-level tuple, match statement)."""
+    repo = ctx.repo
+    names = []
+    for st in repo.tree(ASH).body:
+        if isinstance(st, ast.ClassDef) and st.name != "AshFrame":
+            c = repo.cls(ASH, st.name)
+            if "AshFrame" in c.base_names()[1:]:
+                names.append(st.name)
+    if len(names) < 6:
+        raise AnalysisError(f"anchor vanished: the six ASH frame classes (found subclasses of AshFrame: {names})")
+    return names
 
 
 @rule("R04.3", ["C04", "C01", "C11", "C09", "C02"], "T-ORD", floor=1)
@@ -601,34 +603,65 @@ def r05_9(ctx):
         parent_ok = False
         for p in ast.walk(f.node):
             if isinstance(p, ast.AsyncWith) and any(it.context_expr is n for it in p.items):
-                parent_ok = f.short == "AshProtocol._send_data_frame"
+                # (which function holds the `async with` is R05.1's business: every DATA write must happen inside it)
+                parent_ok = f.cls is not None and f.cls.name == "AshProtocol"
             if isinstance(p, ast.Attribute) and p.value is n and p.attr == "locked":
                 parent_ok = True
         ctx.require(parent_ok, f"semaphore-use:{f.short}", f"transmit-window semaphore used in {f.short} other than as "
-                    f"`async with` in _send_data_frame / locked(): line {n.lineno}", func=f, node=n)
+                    f"`async with` / locked(): line {n.lineno}", func=f, node=n)
 
 
 # =============================================================================== C01
 @rule("R01.1", ["C01"], "T-WMC", floor=1)
 def r01_1(ctx):
-    """A send cannot be aborted by cancelling its caller: _send_data_frame is referenced only inside send_data,
-    as the coroutine of a task passed to asyncio.shield, and that shield is what send_data awaits."""
+    """A send cannot be aborted by cancelling its caller: what send_data awaits is asyncio.shield(...) of a task created
+    (create_task / eager task / ensure_future) from the coroutine self._send_data_frame(frame) of the caller's frame - in
+    whatever way the three calls are written (nested, through temporaries or helpers) - and _send_data_frame is not
+    started anywhere else."""
     repo = ctx.repo
-    refs = index(repo).references("_send_data_frame")
-    ctx.anchor(refs, "_send_data_frame is referenced")
-    for f, n in refs:
+    f = repo.func(f"{ASH}:AshProtocol.send_data")
+    ctx.fn(f)
+    cls = ash_cls(ctx)
+    # task creation / shielding are modelled by name (the module's own create_eager_task shim is one way to create a task)
+    px = PX(repo, inline=inline_ash(stop=("_send_data_frame", "create_eager_task")),
+            models=[("asyncio.shield", Outcomes(OK(Sym("shielded")))), ("*.create_task", Outcomes(OK(Sym("task")))),
+                    ("create_eager_task", Outcomes(OK(Sym("task")))), ("asyncio.ensure_future", Outcomes(OK(Sym("task")))),
+                    ("await:*", Outcomes(OK(None)))])
+    paths = px.explore(f, lambda: (self_obj(cls, {}), {"data": Sym("payload")}))
+    ctx.anchor(paths, "send_data has a path")
+    for p in paths:
+        calls = [e for e in p.events if e.kind in ("call", "await")]
+        sends = [e for e in calls if e.what.endswith("_send_data_frame")]
+        tasks = [e for e in calls if e.what.endswith(("create_eager_task", "create_task", "ensure_future", "eager_start"))]
+        shields = [e for e in calls if e.what.endswith("shield")]
+        waits = [e for e in p.events if e.kind == "await"]
+        bad = None
+        if p.terminal == "raise" and not sends:
+            ctx.ok(1, "raises-before-sending")
+            continue
+        if len(sends) != 1 or sends[0].kind != "call":
+            bad = f"_send_data_frame is started {len(sends)} times / awaited directly (a directly awaited send is cancelled with its caller)"
+        elif not tasks or sends[0].extra not in tasks[0].args:
+            bad = "the send coroutine is not wrapped in a task of its own"
+        elif not shields or tasks[0].extra not in shields[0].args:
+            bad = "the send task is not protected by asyncio.shield: cancelling the caller cancels the transmission (frame number already consumed)"
+        elif shields[0].kind != "await" and not any(w.args and w.args[0] == shields[0].extra for w in waits):
+            bad = "send_data does not await the shielded task"
+        else:
+            fr_ = sends[0].args[0] if sends[0].args else None
+            payload_ok = isinstance(fr_, Obj) and Sym("payload") in fr_.fields.values() or fr_ == Sym("payload") or (
+                isinstance(fr_, Sym) and "payload" in fr_.tag)
+            if not payload_ok:
+                src = next((e for e in p.events if e.kind in ("call", "new") and e.extra is not None and e.extra == fr_), None)
+                payload_ok = src is not None and (Sym("payload") in src.args or Sym("payload") in src.kwargs.values())
+            if not payload_ok:
+                bad = f"the frame handed to _send_data_frame ({fr_!r}) does not carry the caller's payload"
+        ctx.require(not bad, "send_data:shielded-task", f"send_data: {bad}", func=f, trace=p.trace(12))
+    # nobody else starts a send
+    for g, n in index(repo).references("_send_data_frame"):
         ctx.call_sites += 1
-        ok = False
-        if f.short == "AshProtocol.send_data":
-            # chain of enclosing calls must contain shield(...) directly under an await
-            chain = _enclosing_calls(f.node, n)
-            names = [text(c.func) for c in chain]
-            if any(nm.endswith("shield") for nm in names):
-                sh = [c for c in chain if text(c.func).endswith("shield")][0]
-                ok = any(isinstance(a, ast.Await) and a.value is sh for a in ast.walk(f.node))
-                ok = ok and any(nm.endswith(("create_eager_task", "create_task", "ensure_future")) for nm in names)
-        ctx.require(ok, f"_send_data_frame:ref:{f.short}", f"_send_data_frame is used in {f.short} (line {n.lineno}) "
-                    "outside `await asyncio.shield(<task>(self._send_data_frame(...)))`", func=f, node=n)
+        ctx.require(g.qual in px.visited or g.short == "AshProtocol.send_data", f"_send_data_frame:ref:{g.short}",
+                    f"_send_data_frame is used in {g.short} (line {n.lineno}), outside send_data's shielded task", func=g, node=n)
 
 
 def _enclosing_calls(root, target):
